@@ -87,14 +87,15 @@ def command_obligations(ip, ctx, base, ob, W, key):
 def units(tier):
     u = {}
     State, Mode, Fan, Swing = E("DeviceState"), E("ThermostatMode"), E("ThermostatFanLevel"), E("ThermostatSwing")
-    shapes = list(itertools.product([False, True], list(State), list(Fan), list(Swing), [None] + list(State)))
+    shapes = list(itertools.product([False, True], list(State), list(Fan), list(Swing), [None] + list(State), [False, True]))
     for mode in Mode:
         for chunk in range(4):
             part = shapes[chunk::4]
 
             def fn(ip, ctx, mode=mode, part=part):
-                toggle, state, fan, swing, prev = part[ctx.fork(len(part))]
-                remote, W, mint, maxt = make_remote(ip, ctx, toggle, list(Mode))
+                toggle, state, fan, swing, prev, sep = part[ctx.fork(len(part))]
+                remote, W, mint, maxt = make_remote(ip, ctx, toggle, list(Mode), sep=sep)
+                ctx.inputs["separate_swing_id"] = sep
                 t = sym_int(ctx, "target", -1000, 1000)
                 ctx.inputs.update({"state": state, "mode": mode, "fan": fan, "swing": swing, "prev": prev})
                 f = func(R + "SwitcherBreezeRemote.build_command")
@@ -107,24 +108,30 @@ def units(tier):
                 ctx._key = key
                 ob = outcome_of(lambda: ip.call_function(f, [remote, state, mode, t, fan, swing, prev], {}, ctx))
                 base = f"{PROP}/build_command/{mode.name}/" + ("toggle" if toggle else "plain") + \
-                    f"_{state.name}_{fan.name}_swing{swing.name}_prev{prev.name if prev else 'None'}"
+                    f"_{state.name}_{fan.name}_swing{swing.name}_prev{prev.name if prev else 'None'}" + ("_separate_swing_id" if sep else "")
                 return command_obligations(ip, ctx, base, ob, W, key)
             u[f"build_{mode.name}_{chunk}"] = Unit(f"build_{mode.name}_{chunk}", PROP, fn,
                                                   functions=[R + "SwitcherBreezeRemote.build_command", R + "SwitcherBreezeRemote._lookup_key_in_irset",
                                                              R + "SwitcherBreezeCommand.__init__"], params={"may_be_empty": True})
 
-    def unsupported(ip, ctx):
+    def unsupported(ip, ctx, mode_index):
         modes = list(Mode)
         obs = []
-        k = ctx.fork(5 * 16)
+        k = mode_index * 16 + ctx.fork(16)
         mode = modes[k // 16]
         others = [m for m in modes if m is not mode]
         sup = [m for i, m in enumerate(others) if (k % 16) >> i & 1]
-        remote, W, mint, maxt = make_remote(ip, ctx, False, sup)
+        # the refusal does not depend on anything else in the request: every remote kind x power x previous power,
+        # two fan/swing combinations
+        req = list(itertools.product([False, True], [False, True], list(State), [None] + list(State), [(Fan.LOW, Swing.OFF), (Fan.HIGH, Swing.ON)]))
+        toggle, sep, state, prev, (fan, swing) = req[ctx.fork(len(req))]
+        remote, W, mint, maxt = make_remote(ip, ctx, toggle, sup, sep=sep)
         t = sym_int(ctx, "target", -1000, 1000)
+        ctx.inputs.update({"state": state, "mode": mode, "fan": fan, "swing": swing, "prev": prev, "supported": sup, "separate_swing_id": sep})
         ob = outcome_of(lambda: ip.call_function(func(R + "SwitcherBreezeRemote.build_command"),
-                                                 [remote, State.ON, mode, t, Fan.LOW, Swing.OFF, None], {}, ctx))
-        base = f"{PROP}/unsupported_mode/{mode.name}/supported_" + ("".join(m.name[0] for m in sup) or "none")
+                                                 [remote, state, mode, t, fan, swing, prev], {}, ctx))
+        base = f"{PROP}/unsupported_mode/{mode.name}/supported_" + ("".join(m.name[0] for m in sup) or "none") + \
+            f"/{'toggle' if toggle else 'plain'}{'_sep' if sep else ''}_{state.name}_prev{prev.name if prev else 'None'}_{fan.name}"
         ok = ob[0] == "exc" and ob[1].cls == "RuntimeError"
         obs.append(Obligation(base + "/raises_RuntimeError", ctx, ok))
         if ok:
@@ -132,7 +139,9 @@ def units(tier):
             names = isinstance(msg, str) and all(m.display in msg for m in sup)
             obs.append(Obligation(base + "/message_names_supported_modes", ctx, bool(names)))
         return obs
-    u["unsupported_mode"] = Unit("unsupported_mode", PROP, unsupported, functions=[R + "SwitcherBreezeRemote.build_command"])
+    for mi, m in enumerate(Mode):
+        u[f"unsupported_mode_{m.name}"] = Unit(f"unsupported_mode_{m.name}", PROP, lambda ip, ctx, mi=mi: unsupported(ip, ctx, mi),
+                                               functions=[R + "SwitcherBreezeRemote.build_command"])
 
     def swingcmd(ip, ctx):
         swing = list(Swing)[ctx.fork(2)]
